@@ -2,8 +2,12 @@
 
 package c08
 
+import "testing"
+
 // Built without the request-id accessor (the repository no longer has a process-wide
 // counter of that name): the id counter cannot be preset, everything else runs.
 const msgIDPreset = false
 
 func presetMsgID(v int32) {}
+
+func idgenCheck(t *testing.T) {}
